@@ -1,7 +1,7 @@
 (* Extraction of the executable models.  ExtrOcamlBasic only; no Extract Constant. *)
 From Coq Require Extraction.
 From Coq Require Import ExtrOcamlBasic.
-From Lou Require Model.Hyph Model.HyphSpec Model.Log Model.Resolve Model.Meta Model.Engine Model.BufPlan Gen.GAlloc.
+From Lou Require Model.Hyph Model.HyphSpec Model.Log Model.Resolve Model.Meta Model.Engine Model.BufPlan Gen.GAlloc Model.Finish.
 Extraction Language OCaml.
 Extraction "../ocaml/model.ml"
   Hyph.build Hyph.walk Hyph.hyphenate Hyph.split_token HyphSpec.Hyph_spec
@@ -10,4 +10,5 @@ Extraction "../ocaml/model.ml"
   Meta.score Meta.find_table Meta.find_tables Meta.get_info
   Engine.translate_impl Engine.translate_ref Table.mkEntry
   BufPlan.provided GAlloc.size_typebuf GAlloc.size_wordBuffer GAlloc.size_emphasisBuffer GAlloc.size_destSpacing
-  GAlloc.size_passbuf GAlloc.size_posMapping1 GAlloc.size_posMapping2 GAlloc.size_posMapping3.
+  GAlloc.size_passbuf GAlloc.size_posMapping1 GAlloc.size_posMapping2 GAlloc.size_posMapping3
+  Finish.finish_fwd Finish.finish_back Finish.cursor_out Finish.encode Finish.typeform_mark Finish.char_to_dots Finish.dots_to_char.
